@@ -14,6 +14,8 @@ META = dict(
 def scripts(rnd, quick):
     sc = []
     addrs = [0, 1, 0xFFFF, 0x10000, 0xFFFFFFFF, 0xC0DBDCDD]
+    if not quick:
+        addrs += [0x00010001, 0x7FFFFFFF, 0x80000000, 0xDBC0DBC0, 0x0000C000, 0xFFFF0000]
     seqs = [0, 1, 0xFFFF, 0xC0DB]
     cap = 192
     for tr in (0, 1):
@@ -21,7 +23,7 @@ def scripts(rnd, quick):
             for ws16 in (0, 1):
                 for write in (0, 1):
                     for addr in addrs:
-                        for n in ([0, 1, 2, 5, 20] if addr in (0, 0xC0DBDCDD) else [1, 3]):
+                        for n in (([0, 1, 2, 5, 20] if addr in (0, 0xC0DBDCDD) else [1, 3]) if quick else [0, 1, 2, 3, 4, 5, 8, 20, 40]):
                             for verdict in (range(12) if n in (1, 2, 20) or not quick else [0, rnd.randint(1, 11)]):
                                 seq = rnd.choice(seqs)
                                 ws = 2 if ws16 else 1
